@@ -45,3 +45,13 @@ Theorem C32_diff_counts :
   forall a b, count_kind (patch_stmts a b) = (n_type 0 (diff a b), n_type 2 (diff a b), n_type 1 (diff a b)).
 Proof. exact diff_counts. Qed.
 Print Assumptions C32_diff_counts.
+
+Theorem C32_col_ddl_roundtrip :
+  forall old c, c_id old = c_id c -> apply_ddls (cons old nil) (col_ddl (cons old nil) c) = cons c nil.
+Proof. exact col_ddl_roundtrip. Qed.
+Print Assumptions C32_col_ddl_roundtrip.
+
+Theorem C32_ddl_counts_spec :
+  forall sa sb, ddl_counts (schema_patch sa sb) = schema_delta_counts sa sb.
+Proof. exact ddl_counts_spec. Qed.
+Print Assumptions C32_ddl_counts_spec.
